@@ -83,3 +83,6 @@ C17 = Prop(
     assumptions=["std::string::find(needle,pos) returns the leftmost occurrence at or after pos (model find?)",
                  "operator<< of a std::string into a stringstream appends exactly its bytes"],
 )
+
+C17.rule += (" Every join case is repeated over elements of a user-defined type whose inserters leave number base, fill, a pending width or the failed "
+             "state behind: the text is the join of what each element prints alone.")
